@@ -120,7 +120,7 @@ theorem planar_some (fovy aspect h n f : α)
     planar fovy aspect h n f = some (planarMat fovy aspect h n f) := by
   obtain ⟨h1, h2, h3, h4, h5, h6, h7⟩ := hh
   unfold planar; simp only [h1, h2, h3, h4, h5, h6, h7, not_true_eq_false, not_false_eq_true, if_false, if_true, Bool.false_eq_true]
-/-- `ortho` never rejects -/
+/-- `ortho` never rejects.  TRUE BY CONSTRUCTION of the model: `ortho` is a plain (total) function there, as the Rust `ortho`/`Ortho -> Matrix4` has no assertion; the content is carried by layer T (`t_ortho*` kernels have result `.ok` for every input, with an empty guard list) and by the differential layer on degenerate boxes. -/
 theorem ortho_total (l r b t n f : α) : ∃ m, ortho l r b t n f = m := ⟨_, rfl⟩
 end reject
 
